@@ -1,8 +1,10 @@
 SPECIFICATION Spec
 CONSTANTS
   Impl = "fresh"
+  DecImpl = "copy"
+  Sides = {"out", "in"}
   Objs <- ModelObjs
   TextOf <- ModelText
   MaxOps = 5
-INVARIANTS ValuesNotViews RoundTripsToOwn
+INVARIANTS ValuesNotViews RoundTripsToOwn DecodedIndependent
 CHECK_DEADLOCK FALSE
